@@ -20,6 +20,9 @@ VERIF = pathlib.Path(__file__).resolve().parent.parent
 LEAN = VERIF / "lean"
 REPO = pathlib.Path(os.environ.get("VERIF_REPO", "/repo")).resolve()
 PY = "/venv/bin/python"
+# where evidence / replay files go (overridden only by tools/run_seeded.py so that mutant runs do not clobber real evidence)
+EVIDENCE_DIR = pathlib.Path(os.environ.get("VERIF_EVIDENCE_DIR") or (VERIF / "evidence"))
+REPLAY_DIR = pathlib.Path(os.environ.get("VERIF_REPLAY_DIR") or (VERIF / "replays"))
 ALLOWED_AXIOMS = {"propext", "Classical.choice", "Quot.sound"}
 FORBIDDEN = re.compile(r"\bsorry\b|\badmit\b|^axiom\s|native_decide|bv_decide|implemented_by|\bunsafe\s|maxHeartbeats 0", re.M)
 
@@ -219,7 +222,7 @@ class Ctx:
         known = json.loads((VERIF / "known_findings.json").read_text()) if (VERIF / "known_findings.json").exists() else {"findings": []}
         findings = [f for f in known.get("findings", []) if f.get("property") == self.prop and "match" in f]
         lines, nviol = [], 0
-        (VERIF / "replays").mkdir(exist_ok=True)
+        REPLAY_DIR.mkdir(parents=True, exist_ok=True)
         seen_known, new_fail = {}, []
         for f in self.failures:
             hit = None
@@ -237,7 +240,7 @@ class Ctx:
         for f in new_fail:
             groups.setdefault(json.dumps(f["key"], sort_keys=True), []).append(f)
         for i, (k, fs) in enumerate(sorted(groups.items())):
-            path = VERIF / "replays" / f"{self.prop}_{self.tier}_{self.seed}_{i}.json"
+            path = REPLAY_DIR / f"{self.prop}_{self.tier}_{self.seed}_{i}.json"
             path.write_text(json.dumps({"property": self.prop, "kind": "failing-input", "key": json.loads(k), "what": fs[0]["what"],
                                         "replay": fs[0]["replay"], "occurrences": len(fs), "seed": self.seed, "tier": self.tier,
                                         "repo": str(REPO)}, indent=1, default=str))
@@ -246,7 +249,7 @@ class Ctx:
         # broken obligations / correspondence without a failing input that explains them
         unexplained = bool(self.broken or self.disagreements) and nviol == 0
         if unexplained:
-            path = VERIF / "replays" / f"{self.prop}_{self.tier}_{self.seed}_unchecked.json"
+            path = REPLAY_DIR / f"{self.prop}_{self.tier}_{self.seed}_unchecked.json"
             path.write_text(json.dumps({"property": self.prop, "kind": "no-failing-input-found",
                                         "broken_obligations": self.broken, "correspondence_disagreements": self.disagreements[:20],
                                         "n_disagreements": len(self.disagreements), "known_findings_seen": sorted(seen_known),
@@ -274,8 +277,8 @@ class Ctx:
         cov.update(self.extra)
         ev = {"property_id": self.prop, "tier": self.tier, "seed": self.seed, "level": "proof", "coverage": cov,
               "assumptions": self.assumptions, "wall_s": round(time.time() - self.t0, 2), "violations": nviol}
-        (VERIF / "evidence").mkdir(exist_ok=True)
-        (VERIF / "evidence" / f"{self.prop}.json").write_text(json.dumps(ev, indent=1, default=str) + "\n")
+        EVIDENCE_DIR.mkdir(parents=True, exist_ok=True)
+        (EVIDENCE_DIR / f"{self.prop}.json").write_text(json.dumps(ev, indent=1, default=str) + "\n")
         for l in lines:
             print(l)
         print(f"[{self.prop}] tier={self.tier} seed={self.seed} theorems={self.discharged}/{len(self.obligations)} "
